@@ -64,7 +64,7 @@ def run_sequential(S, case):
                     break
             else:
                 r = mk(rng, i)
-                ResultsAggregator.append(out, r, batch_id=rng.randint(1, case["batches"]))
+                ResultsAggregator.append(out, r, batch_id=rng.randint(0, case["batches"]))       # 0 is a batch id too (JobRunner's default)
                 appended.append(r)
         if not failed:
             reported += ResultsAggregator.load(out).process_results()
